@@ -37,6 +37,7 @@ CHECKS.update({
  'C15': A("The real compute_increments_from_imu (both sensor types) on formal-interval samples of polynomial signals with symbolic vector coefficients against the Peano-Baker series of the exact attitude and body-frame velocity integral: for linear signals the rotation is exact through T^4, the velocity increment through T^2 and its only T^3 discrepancy is (1/6) a x (a x d); generic quadratic signals agree below the algorithm order; table shape for irregular symbolic stamps.", "DESIGN.md 5/C15"),
  'C14': A("The real EstimationModel / Parameters code with symbolic standard deviations whose signs decide the enable bits (bias, walk, noise fork on every path; scale-misalignment masks enumerated): dimensions of states/P/F/G/H/J/q/v mutually consistent, P = diag(sd^2), q and G map enabled walks to their bias states, state names = the simulator's parameter-table columns, output_matrix(r) x = (T-I) r + b, estimates accumulate, correct_increments undoes the noise-free simulated error for irregular stamps (both DataFrame and Series forms), coefficients of the random draws = noise/sqrt(dt), noise sqrt(dt), walk sqrt(dt); walk without bias raises.", "DESIGN.md 5/C14"),
  'C04': A("Bivariate jets (error scale eps, time step t) through two runs of the real kernel step, the real system_matrices and propagate_errors: for every unit direction of the 9 (7) error states and 6 sensor errors and each of 15 state components, the eps^1 t^1 coefficient of correct_pva(INS(t), eps x(t)) - truth(t) is identically zero for the velocity/gyro/accel columns and the position/attitude rows of the attitude columns, equals exactly (Omega_n x phi) x V in the velocity rows of the attitude columns, and vanishes at V = 0 for the position columns except d(gravity)/d(latitude) in [DV3, DR1] which is bounded; no-altitude mode under vertical equilibrium of the specific force; propagate_errors = one trapezoidal step of that model. Velocity-proportional residuals of the position columns are reported, not decided.", "DESIGN.md 5/C04"),
+ 'C01': A("Claimed as local consistency: the real compute_increments_from_imu (rate and increment sensors, samples of linear-in-time signals) followed by one step of the real kernel from a fully symbolic state, with the sampling interval a formal parameter: order 0 reproduces the state, and the t^1 coefficients satisfy Newton's law in the Earth-fixed frame - position kinematics, velocity dynamics with specific force, gravity and the Coriolis term, attitude kinematics with Earth rate - written with the library's geodesy functions and symbolic ellipsoid constants. Consistency + stability => convergence is cited (Dahlquist/Lax); finite-interval error ratios are outside.", "DESIGN.md 5/C01"),
 })
 
 NA = {
